@@ -11,7 +11,7 @@
    form of these laws ([contract], Mesh/Case.v) is additionally evaluated on the implementation's own
    output, and [contract_sound] below shows that the model satisfies that boolean form on all inputs. *)
 From Coq Require Import List NArith ZArith Bool Arith Permutation QArith Qcanon.
-From PF Require Import Mesh.Pure Mesh.PureLemmas Mesh.PureProofs Mesh.Case Mesh.PureLaws Mesh.AreaLaws Mesh.Smooth Mesh.SmoothProofs.
+From PF Require Import Mesh.Pure Mesh.PureLemmas Mesh.PureProofs Mesh.Case Mesh.PureLaws Mesh.AreaLaws Mesh.Smooth Mesh.SmoothProofs Mesh.Normals Mesh.NormalsProofs.
 Import ListNotations.
 Close Scope Qc_scope.
 Close Scope Q_scope.
@@ -387,11 +387,61 @@ Proof.
 Qed.
 Print Assumptions centre_laws.
 
-(* normalise / smooth normals / flat normals / scale-along-normal (and Laplacian along an axis, whose step is
-   scaled by the irrational |axis| / ||axis||) produce float values outside Q:
-   their VALUE maps are compared harness-side (1e-9); their frame law is [frame_ok] of Mesh/Case.v,
-   evaluated in Coq on the implementation's output (the result with the target attribute removed must
-   equal the input with it removed). *)
+(* ------------------------------------------------------------------ unit-vector value maps: normalise, normals
+   NormalizeAttribute3D/2D, SmoothNormals, SmoothNormalsImplicitWeld and FlatNormals produce
+   (integer vector) / sqrt(integer) on integer meshes.  Mesh/Normals.v computes the numerator vector
+   ([smooth_sum]: every corner adds its face's cross product to its vertex; [implicit_sum]: vertices at one
+   position share the sum; [flat_vec]: the cross product of the LAST face using the vertex, (1,1,1) when none does;
+   normalise: the vector itself over the LARGEST squared length of the attribute) and the check hands the
+   implementation's output to Coq as exact dyadic rationals (case CUnit): output o is accepted iff it has the
+   sign of the numerator n and  (|o| - delta)+^2 len2 <= n^2 <= (|o| + delta)^2 len2  (delta = 2e-9), in Q. *)
+
+(* what the squared test means: wherever the exact value n / sqrt(len2) is a rational r, an accepted output
+   has the sign of n and lies within delta of r *)
+Theorem unit_test_sound : forall (o : Q) (n len2 : Z) (r : Q),
+  close_unit o n len2 = true -> (0 < len2)%Z -> (0 <= r)%Q ->
+  (r * r * inject_Z len2 == inject_Z (n * n))%Q ->
+  (0 <= o * inject_Z n)%Q /\ (Qabs.Qabs o - delta <= r)%Q /\ (r <= Qabs.Qabs o + delta)%Q.
+Proof. exact close_unit_sound. Qed.
+Print Assumptions unit_test_sound.
+
+(* laws of the numerators: a face's cross product does not move with the mesh, scales with the square of a
+   uniform scale (so the unit normal is invariant under both - what the scaled runs of the check rely on) and
+   vanishes for a repeated corner; a vertex no triangle uses gets the zero sum (smooth: the zero normal stays)
+   resp. the (1,1,1) default (flat); normalise divides by the largest length, so no output is longer than 1 *)
+Local Open Scope Z_scope.
+Theorem normal_numerator_laws :
+  (forall ax ay az bx by_ bz cx cy cz tx ty tz : Z,
+     cross (vsub [bx + tx; by_ + ty; bz + tz] [ax + tx; ay + ty; az + tz])
+           (vsub [cx + tx; cy + ty; cz + tz] [ax + tx; ay + ty; az + tz])%Z
+     = cross (vsub [bx; by_; bz] [ax; ay; az]) (vsub [cx; cy; cz] [ax; ay; az])) /\
+  (forall k ax ay az bx by_ bz cx cy cz : Z,
+     cross (vsub [k * bx; k * by_; k * bz] [k * ax; k * ay; k * az])
+           (vsub [k * cx; k * cy; k * cz] [k * ax; k * ay; k * az])%Z
+     = map (Z.mul (k * k)) (cross (vsub [bx; by_; bz] [ax; ay; az]) (vsub [cx; cy; cz] [ax; ay; az]))) /\
+  (forall ax ay az cx cy cz : Z,
+     cross (vsub [ax; ay; az] [ax; ay; az]) (vsub [cx; cy; cz] [ax; ay; az]) = zero3) /\
+  (forall d idx v, ~ In v idx -> smooth_sum d idx v = zero3) /\
+  (forall d idx v, ~ In v idx -> flat_vec d idx v = [1; 1; 1]%Z) /\
+  (forall d idx v w, In w d -> (norm2 w <= unit_den2 NNormalize d idx v)%Z).
+Proof.
+  split; [exact cross_diff_translate|]. split; [exact cross_diff_scale|]. split; [exact cross_diff_degenerate|].
+  split; [exact smooth_sum_unreferenced|]. split; [exact flat_vec_unreferenced|exact normalize_divisor_is_max].
+Qed.
+Print Assumptions normal_numerator_laws.
+Local Close Scope Z_scope.
+
+(* non-vacuity: the 3-4-5 triangle in the xy plane has the numerator (0,0,12) at every corner; the exact
+   dyadic 1 = 4503599627370496 * 2^-52 is accepted for the z component, 0.9999 is not *)
+Example unit_example :
+  smooth_sum [[0; 0; 0]; [3; 0; 0]; [0; 4; 0]]%Z [0; 1; 2]%nat 1 = [0; 0; 12]%Z
+  /\ close_unit (dyq (4503599627370496, -52)%Z) 12 144 = true
+  /\ close_unit (Qmake 9999 10000) 12 144 = false.
+Proof. vm_compute. repeat split. Qed.
+
+(* Laplacian along an axis (step scaled by the irrational |axis| / ||axis||) stays a harness-side tolerance
+   check (1e-9); its frame law, like that of the operations above, is [frame_ok] of Mesh/Case.v, evaluated in
+   Coq on the implementation's output. *)
 
 (* ------------------------------------------------------------------ the oracle is satisfied by the model *)
 
